@@ -179,6 +179,63 @@ def nest(kind, n):
     raise ValueError(kind)
 
 
+OPS = ["|", "&", "^", "<<", ">>", "+", "-", "*", "\\", "%"]
+INT = 'rule a { strings: $a = "a" condition: %s == 1 }'
+BOOL = 'rule a { strings: $a = "a" condition: %s }'
+def templates():
+    """Every position at which the expression / regex / hex grammar re-enters itself: (prefix, suffix) pairs such
+    that prefix^n core suffix^n is syntactically valid for every n and is n levels deep.  Validated against the
+    parser: all of them parse for small n; with the limit at L every one is rejected for some n <= L."""
+    T = []
+    def add(name, pre, suf, core, ctx, cls="expr"):
+        T.append({"name": name, "pre": pre, "suf": suf, "core": core, "ctx": ctx, "cls": cls})
+    wr = {"uint8": ("uint8(", ")"), "at_index": ("@a[", "]"), "paren": ("(", ")")}
+    for w, (wp, ws) in wr.items():
+        for op in OPS:
+            if w == "paren" and op not in ("|", "+", "%"):
+                continue
+            add("%s_right_%s" % (w, op), "%s1 %s " % (wp, op), ws, "1", INT)
+            add("%s_left_%s" % (w, op), wp, " %s 1%s" % (op, ws), "1", INT)
+    for nm, wp, ws in [("uint8", "uint8(", ")"), ("int32be", "int32be(", ")"), ("at_index", "@a[", "]"),
+                       ("len_index", "!a[", "]"), ("count_in_hi", "#a in (0..", ")"), ("count_in_lo", "#a in (", "..9)"),
+                       ("call_arg", "f(", ")"), ("call_arg2", "f(1, ", ")"), ("subscript", "f[", "]"),
+                       ("field_call", "f.g[1].h(", ")"), ("subscript_field", "f[", "].x"), ("neg_paren", "-(", ")"),
+                       ("bitnot_paren", "~(", ")"), ("int_paren", "(", ")"), ("neg_uint", "-uint8(", ")"),
+                       ("bitnot_index", "~@a[", "]")]:
+        add(nm, wp, ws, "1", INT)
+    for nm, wp, ws, core in [
+            ("bool_paren", "(", ")", "true"), ("not_paren", "not (", ")", "true"), ("and_right", "(true and ", ")", "true"),
+            ("and_left", "(", " and true)", "true"), ("or_right", "(false or ", ")", "true"), ("or_left", "(", " or false)", "true"),
+            ("cmp_right", "(1 == ", ")", "1"), ("cmp_left", "(", " == 1)", "1"), ("lt_right", "(1 < ", ")", "1"),
+            ("for_body", "for any i in (0..1) : (", ")", "true"), ("for_of_body", "for all of them : (", ")", "true"),
+            ("for_of_set_body", "for 1 of ($a) : (", ")", "true"),
+            ("for_iter_range_lo", "for any i in ((", ")..2) : (true)", "1"),
+            ("for_iter_range_hi", "for any i in (0..(", ")) : (true)", "1"),
+            ("for_iter_list", "for any i in (1, (", ")) : (true)", "1"),
+            ("for_iter_list_first", "for any i in ((", "), 2) : (true)", "1"),
+            ("for_iter_ident", "for any i in f(", ") : (true)", "1"),
+            ("for_selection", "for (", ") of them : ($)", "1"), ("expr_of", "(", ") of them", "1"),
+            ("of_in_range", "any of them in (0..(", "))", "1"),
+            ("at", "$a at (", ")", "1"), ("in_hi", "$a in (0..(", "))", "1"), ("in_lo", "$a in ((", ")..9)", "1"),
+            ("defined_paren", "defined (", ")", "true"),
+            ("contains_left", "(f(", ') contains "a")', "1"), ("matches_left", "(f(", ") matches /a/)", "1"),
+            ("not_for", "not for any i in (0..1) : (", ")", "true"),
+            ("percent_of", "(", ") % of them", "1")]:
+        add(nm, wp, ws, core, BOOL)
+    S = 'rule a { strings: $a = %s condition: $a }'
+    for nm, wp, ws, core, ctx in [
+            ("regex_group", "(", ")", "a", "/%s/"), ("regex_alt_right", "(a|", ")", "z", "/%s/"),
+            ("regex_alt_left", "(", "|a)", "z", "/%s/"), ("regex_group_star", "(", ")*", "a", "/%s/"),
+            ("regex_group_range", "(", "){1,2}", "a", "/x%s/"), ("regex_noncap", "(", ")?b", "a", "/%s/"),
+            ("hex_alt", "( ", " )", "AB", "{ 00 %s 11 }"), ("hex_alt_right", "( CD | ", " )", "AB", "{ 00 %s 11 }"),
+            ("hex_alt_left", "( ", " | CD )", "AB", "{ 00 %s 11 }"), ("hex_alt_mid", "( 01 | ", " 02 | 03 )", "AB", "{ 00 %s 11 }")]:
+        add(nm, wp, ws, core, S % ctx, "string")
+    add("regex_in_condition", "(", ")", "a", 'rule a { condition: "x" matches /%s/ }', "string")
+    return T
+def template_text(t, n):
+    return t["ctx"] % (t["pre"] * n + t["core"] + t["suf"] * n)
+
+
 NEST_KINDS = ["paren", "not", "neg", "bitnot", "defined", "for", "uint", "intparen", "subscript", "regex_group",
               "regex_alt", "regex_cond", "hex_alt", "hex_alt2"]
 EXPR_KINDS = {"paren", "not", "neg", "bitnot", "defined", "for", "uint", "intparen", "subscript"}
@@ -224,7 +281,13 @@ class C08(Prop):
     HARNESS_BINS = ("c08",)
     KF = {1: "C08-ast-drop-recursion"}
     RULE = ("EXPLORATION: rule texts from a grammar (valid by construction: must compile, finalize and scan), token- and "
-            "byte-mutated variants (multi-byte characters, truncation, NUL/0xff bytes), pathological nestings "
+            "byte-mutated variants (multi-byte characters, truncation, NUL/0xff bytes), every recursive re-entry "
+            "position of the grammars (right and left operand of each binary operator inside uintN()/@a[]/(), call and "
+            "subscript arguments, #a in / $a at / $a in bounds, for bodies, iterators and selections, `of` "
+            "expressions, regex groups / alternation branches / repetitions, hex alternatives) with the limit at 5 "
+            "and at its default, 1 .. 10x the limit deep (deeper than the limit must be refused by the parser, a "
+            "quarter of it must be accepted), chains of 1000 / 40000 unary operators, nested for iterators under the "
+            "wall-clock cap, pathological nestings "
             "(parentheses, not/-/~/defined chains, for, uintN(), @a[], regex groups and alternations in strings and in "
             "`matches`, hex alternatives) at limit-1 / limit / limit+1 / 2x / 10x the relevant limit, long flat "
             "sequences (must compile), all under parameter settings limits 1..255, max_condition_depth 1..200, "
@@ -333,6 +396,26 @@ class C08(Prop):
                         p["string_limit"] = lim
                 for lv in sorted({max(1, lim // 2 - 1), lim // 2, lim // 2 + 1, lim - 1, lim, lim + 1, 2 * lim, 10 * lim}):
                     out.append(self.mk("nest:" + kind, nest(kind, lv), p, "err" if lv >= 10 * lim else None))
+        # every recursive re-entry position, small and default limits: beyond the limit the parser must refuse
+        for t in templates():
+            key = "expr_limit" if t["cls"] == "expr" else "string_limit"
+            default = 50 if t["cls"] == "expr" else 30
+            for lim, levels in ((5, (1, 3, 5, 6, 12, 60)), (default, (default // 4, default - 1, default + 1, 10 * default))):
+                for lv in levels:
+                    p = {} if lim == default else {key: lim}
+                    c = self.mk("reentry:" + t["name"], template_text(t, lv), p)
+                    if lv > lim:
+                        c["parse_expect"] = "too_deep"
+                    elif lim == default and lv <= default // 4:
+                        c["parse_expect"] = "ok"
+                    out.append(c)
+        # operator chains (known finding C08-ast-drop-recursion) and the wall-clock cap for nested for iterators
+        for tok, body in (("- ", "%s1 == 1"), ("~ ", "%s1 == 1"), ("not ", "%strue"), ("defined ", "%strue")):
+            for m in (1000, 40000):
+                out.append(self.mk("chain:" + tok.strip(), "rule a { condition: " + body % (tok * m) + " }", {}))
+        for k in (12, 20, 24):
+            out.append(self.mk("time:for_iter", "rule a { condition: %s1%s }" % ("for any i in ((" * k, ")..2) : (true)" * k), {}))
+            out.append(self.mk("time:for_iter_list", "rule a { condition: %s1%s }" % ("for any i in ((" * k, "), 2) : (true)" * k), {}))
         for kind in FLAT_KINDS:
             for m in (10, 300, 3000):
                 # chains of binary operators build a left-deep tree: beyond max_condition_depth they are an error
@@ -361,7 +444,7 @@ class C08(Prop):
         return out
 
     def budget(self, tier):
-        return 500 if tier == "quick" else 12000
+        return 400 if tier == "quick" else 12000
 
     def corpus(self, ctx):
         out = []
@@ -395,12 +478,21 @@ class C08(Prop):
             ctx.bind_checked = self.build_checked()
         hc = []
         for c in cases:
-            h = {k: v for k, v in c.items() if k not in ("kind", "expect")}
+            h = {k: v for k, v in c.items() if k not in ("kind", "expect", "parse_expect")}
             h.setdefault("stack_kb", self.stack_kb(c))
             h.setdefault("wall_s", 20)
             hc.append(h)
             ctx.count("kind=" + c["kind"].split(":")[0])
         outs = core.harness_run(ctx.bind_checked, "c08", hc, shards=12)
+        # a wall-clock timeout can be the machine, not the code: such a case is run again, alone, with a larger cap
+        slow = [i for i, o in enumerate(outs) if isinstance(o, dict) and o.get("crash") == "timeout"]
+        for i in slow:
+            h = dict(hc[i])
+            h["wall_s"] = 120
+            o2 = core.harness_run(ctx.bind_checked, "c08", [h], shards=1, timeout=300)[0]
+            if isinstance(o2, dict):
+                o2["first_attempt"] = "timeout after %ss" % hc[i]["wall_s"]
+                outs[i] = o2
         # a crash: is it the recorded one (recursive drop of a left-deep tree)?  Re-run the parser alone, leaking
         # the tree instead of dropping it.
         redo = [i for i, o in enumerate(outs) if isinstance(o, dict) and "crash" in o
@@ -425,12 +517,14 @@ class C08(Prop):
         return outs
 
     def op_chain(self, case):
-        """number of binary arithmetic / bitwise operator tokens in the text (class predicate of the known finding)"""
+        """number of operator tokens the parser folds in a loop (binary arithmetic / bitwise operators, unary
+        `-` `~` `not` `defined`): class predicate of the known finding C08-ast-drop-recursion"""
         try:
             t = bytes.fromhex(case["text_hex"]).decode("utf-8", "replace")
         except ValueError:
             return 0
-        return len(re.findall(r"[0-9a-z_\)\]]\s*(\+|-|\*|\\|%|&|\||\^|<<|>>)\s*[0-9a-z_\(~-]", t))
+        return len(re.findall(r"[0-9a-z_\)\]]\s*(\+|-|\*|\\|%|&|\||\^|<<|>>)\s*[0-9a-z_\(~-]", t)) + \
+            len(re.findall(r"(?:-|~|\bnot\b|\bdefined\b)\s*(?=-|~|not\b|defined\b)", t))
 
     def verdict(self, case, o):
         if not isinstance(o, dict) or "compile" not in o:
@@ -445,6 +539,12 @@ class C08(Prop):
             return "text valid by construction rejected: " + o["compile"]
         if case.get("expect") == "err" and o["compile"] == "ok":
             return "nesting at 10x the limit accepted"
+        if case.get("parse_expect") == "too_deep" and not o["parse"].startswith("err:"):
+            # (the refusal is usually "too many imbricated ...", but where the parser tries an alternative after
+            # a failed branch it can surface as a plain syntax error: refused is what matters)
+            return "text nested deeper than the recursion limit accepted by the parser"
+        if case.get("parse_expect") == "ok" and o["parse"] != "ok":
+            return "nesting well below the limit refused: " + o["parse"][:60]
         if o.get("ms", 0) > 15000:
             return "took %d ms" % o["ms"]
         return None
